@@ -183,6 +183,54 @@ def reconnect_sessions(chk):
     return traces
 
 
+def other_connection_sessions(chk):
+    """a connection with message callbacks is closed; afterwards ANOTHER connection of the same process is opened and its
+    device talks: none of the closed connection's callbacks may be started (and nothing it registered may have gone lost
+    on the other one)"""
+    import random
+
+    from .. import connscen as CS
+    from .. import conntrace as CT
+
+    rng = random.Random(chk.seed + 1617)
+    for k in range(12 if chk.tier == "quick" else 200):
+        case = {"seed": rng.randrange(1 << 30), "switch_prob": rng.choice([0.05, 0.3, 0.6]), "close_in_callback": rng.random() < 0.4, "latency_us": rng.choice([0, 20000, 150000])}
+        s = CT.Session(case["seed"], respond=CS.make_responder(random.Random(case["seed"]), "answer"), latency_us=case["latency_us"], switch_prob=case["switch_prob"])
+        calls = []
+        state = {"closed_at": None}
+
+        def body(s, case=case, calls=calls, state=state):
+            c = s.connect()
+
+            def cb(st, sub, f, v):
+                calls.append((len(s.sim.events), sub, f, v))
+                if case["close_in_callback"] and state["closed_at"] is None:
+                    c.close()
+                    state["closed_at"] = len(calls)
+
+            c.register_message_callback(cb)
+            c.get("MAIN", "VOL")
+            s.sleep(1.0)
+            if state["closed_at"] is None:
+                c.close()
+                state["closed_at"] = len(calls)
+            s.sleep(0.3)
+            stop = s.start_decoy(random.Random(case["seed"] + 1))
+            s.sleep(3.0)
+            stop()
+
+        s.run(body)
+        chk.count_case({"other_connection": case}, True)
+        rep = {"other_connection_case": case}
+        if s.sim.failure is not None:
+            chk.violation("C16:other-connection-no-termination", f"the session never came to rest: {s.sim.failure}", rep)
+        elif state["closed_at"] is not None and len(calls) > state["closed_at"]:
+            late = calls[state["closed_at"]]
+            chk.violation("C16:callback-after-close", f"a message callback of a connection was started after its close() had returned: it was invoked with {late[1:]!r}, a line another connection of the process received later", rep)
+        elif getattr(s, "decoy_sent", None) and not getattr(s, "decoy_deliveries", None):
+            chk.violation("C16:close-damaged-other-connection", "after close() of one connection, another connection opened later delivered nothing to its own callback although its device answered", rep)
+
+
 def project_reconnect(events):
     """the steps of Model/Reconnect.v in a recorded session: close() of the first session (the flag set), connect()
     re-arming the flag, the OLD reader's connection_lost reading the protocol's callback and calling it; up to the final
@@ -254,6 +302,7 @@ def reconnect_correspondence(chk, traces):
 def run(chk):
     chk.build("Properties/C16.v")  # the two-session traces below are replayed in the compiled model
     api_close_sessions(chk)
+    other_connection_sessions(chk)
     tr = reconnect_sessions(chk)
     reconnect_correspondence(chk, tr)
     return run_life_check(
